@@ -278,7 +278,10 @@ class Ctx:
         if m is None:
             from renormalizer.model import Op
 
-            mat = np.asarray(self.bl[site].op_mat(Op(word, self.dof(site, ld))))
+            try:
+                mat = np.asarray(self.bl[site].op_mat(Op(word, self.dof(site, ld))))
+            except ValueError as e:
+                raise _Malformed(f"the basis set of site {site} does not know the simple symbol {word!r}: {e}")
             m = (mat, float(np.linalg.norm(mat, 2)))
             self._mat[key] = m
         return m
@@ -434,7 +437,8 @@ class C15(Prop):
             "quantum-number components; int/str/tuple DoF names) and an expression program of 5-13 (thorough: -21) instructions over "
             "registers of Op / OpSum / list: literals (1-4 simple symbols, DoFs repeated with p=1/2, factor int/float/complex/NumPy/"
             "Quantity, qn None/int/list/array/arbitrary), identity, Op.product, OpSum.product, + - * (all operand kind pairs), "
-            "scalar * and / on both sides, unary -, +=, sum(), 0+Op, simplify(atol), squeeze_identity, split_elementary, copy, "
+            "scalar * and / on both sides, unary -, +=, sum(), chained a+b-a+a (same term 3+ times), 0+Op, simplify(atol), squeeze_identity, "
+            "split_elementary, copy, Model.check_operator_terms, "
             "equal-by-another-route twins, invalid operands; each instruction is checked against dense matrix algebra. "
             "non-trivial = the program executed >=1 product and >=1 sum of operators, or an operator with a repeated DoF, "
             "or >=2 quantum-number components, or a NumPy scalar")
@@ -461,7 +465,7 @@ class C15(Prop):
         and any(s["k"] == "sho" for s in spec["model"]["sites"]),
         # the symbol grammar is ambiguous: 'b^\\dagger' '+' 'b...' written next to each other (product of valid Ops, or after
         # squeeze_identity removed an 'I' between them) is parsed as the simple symbol 'b^\\dagger + b' -> ValueError
-        "F54": lambda spec, sig, msg: sig == "grammar.bdagger_plus_b_ambiguity"
+        "F54": lambda spec, sig, msg: sig in ("grammar.bdagger_plus_b_ambiguity", "grammar.bdagger_plus_b_ambiguity.silent_misparse")
         and any(s["k"] == "sho" for s in spec["model"]["sites"]) and any(s["k"] == "spin" for s in spec["model"]["sites"]),
         # BasisMultiElectronVac.op_mat('I I' on one site) ignores op.factor -> Mpo of such a term is wrong
         "F52": lambda spec, sig, msg: sig == "tiein.multi_electron_identity_factor_dropped"
@@ -554,7 +558,7 @@ class _Run:
             return None
         return k
 
-    def den_check(self, name, obj, ref, scale, extra_tol=0.0, what="", rebase=False):
+    def den_check(self, name, obj, ref, scale, extra_tol=0.0, what="", rebase=False, amb=None):
         """den(obj) == ref ; returns the Reg for obj (re-baselined on failure so that one defect is reported once)."""
         k = self.wellformed(name, obj)
         if k is None:
@@ -563,7 +567,13 @@ class _Run:
         try:
             got, sc, _ = self.ctx.den_terms(terms)
         except _Malformed as e:
-            self.r.fail(f"{name}.malformed", str(e))
+            if amb is not None and amb():
+                # silent variant of the grammar ambiguity: the joined string has as many simple symbols as DoFs after the
+                # mis-parse, so an Op with a nonsense symbol ('b^\\dagger+b^\\dagger') / shifted DoFs is returned
+                self.r.fail("grammar.bdagger_plus_b_ambiguity.silent_misparse", f"{what or name}: {e}")
+                self.cls.add("F54.region_hit")
+            else:
+                self.r.fail(f"{name}.malformed", str(e))
             return None
         scale = max(scale, 1e-300)
         ok = self.r.check_close(f"{name}.den", got / scale, ref / scale, RTOL_ALG + extra_tol / scale,
@@ -643,7 +653,8 @@ class _Run:
                                  amb=lambda: ambiguous([w for _, w, _ in words]))
             return
         m, n = ctx.den_words(words)
-        g = self.den_check("lit", obj, fval * m, abs(fval) * n, what=f"Op({rp(symbol)}, {rp(dofarg)}, {rp(f)}, qn={rp(qn)})")
+        g = self.den_check("lit", obj, fval * m, abs(fval) * n, what=f"Op({rp(symbol)}, {rp(dofarg)}, {rp(f)}, qn={rp(qn)})",
+                           amb=lambda: ambiguous([w for _, w, _ in words]))
         if g is None:
             return
         st_ = struct(obj)
@@ -717,10 +728,9 @@ class _Run:
         A, B = a.terms(), b.terms()
         fn = {"add": operator.add, "sub": operator.sub, "mul": operator.mul, "iadd": operator.iadd}[op]
         res, e = self.call(fn, a.obj, b.obj)
+        amb = (lambda: any(ambiguous(verbatim_tokens(x.symbol) + verbatim_tokens(y.symbol)) for x in A for y in B)) if op == "mul" else None
         if e is not None:
-            self.refused_or_fail(name, e, ok_exp, f"{a.kind} {op} {b.kind}",
-                                 amb=(lambda: any(ambiguous(verbatim_tokens(x.symbol) + verbatim_tokens(y.symbol)) for x in A for y in B))
-                                 if op == "mul" else None)
+            self.refused_or_fail(name, e, ok_exp, f"{a.kind} {op} {b.kind}", amb=amb)
             self.unchanged(name, before)
             return
         if op == "mul":
@@ -732,7 +742,7 @@ class _Run:
         else:
             ref, scale = a.ref + b.ref, a.scale + b.scale
             self.n_sumop += 1
-        g = self.den_check(name, res, ref, scale, what=f"{a.kind} {op} {b.kind}")
+        g = self.den_check(name, res, ref, scale, what=f"{a.kind} {op} {b.kind}", amb=amb)
         self.cls.add(f"bin.{name}")
         if a.obj is b.obj:
             self.cls.add(f"bin.{op}.same_object")
@@ -894,11 +904,12 @@ class _Run:
             fn, name = OpSum.product, "OpSum.product"
         before = [(g, snap(g.obj)) for g in gs]
         res, e = self.call(fn, [g.obj for g in gs])
+
+        def amb():
+            import itertools
+            return any(ambiguous([w for t in combo for w in verbatim_tokens(t.symbol)])
+                       for combo in itertools.product(*[g.terms() for g in gs]))
         if e is not None:
-            def amb():
-                import itertools
-                return any(ambiguous([w for t in combo for w in verbatim_tokens(t.symbol)])
-                           for combo in itertools.product(*[g.terms() for g in gs]))
             self.refused_or_fail(name, e, True, f"{name}({[g.kind for g in gs]})", amb=amb)
             return
         ref, scale = gs[0].ref, gs[0].scale
@@ -906,7 +917,7 @@ class _Run:
         for g in gs[1:]:
             ref, scale = ref @ g.ref, scale * g.scale
             exp = [(x[0] + y[0], x[1] + y[1], x[2] + y[2]) for x in exp for y in [struct(t) for t in g.terms()]]
-        h = self.den_check(name, res, ref, scale, what=f"{name}({[g.kind for g in gs]})")
+        h = self.den_check(name, res, ref, scale, what=f"{name}({[g.kind for g in gs]})", amb=amb)
         self.unchanged(name, before)
         self.n_prod += len(gs) > 1
         self.cls.add(f"{name}.n={len(gs)}")
@@ -954,13 +965,21 @@ class _Run:
             return
         _, _, mx = self.ctx.den_terms(T) if T else (None, None, 0.0)
         bound = len(T) * float(atol) * mx
+        amb_s = lambda: any(ambiguous([w for w in verbatim_tokens(t.symbol) if w != "I"]) for t in T)
         if not atol:
-            g = self.den_check("simplify.atol0", res, a.ref, a.scale, what=f"simplify(atol=0) of {len(T)} terms")
+            g = self.den_check("simplify.atol0", res, a.ref, a.scale, what=f"simplify(atol=0) of {len(T)} terms", amb=amb_s)
         else:
             # statement of the property: the denoted operator moves by at most (#terms)*atol*max prod||local||
             g = None
             if self.wellformed("simplify", res) is not None:
-                got, sc, _ = self.ctx.den_terms(list(res))
+                try:
+                    got, sc, _ = self.ctx.den_terms(list(res))
+                except _Malformed as ex:
+                    if amb_s():
+                        self.r.fail("grammar.bdagger_plus_b_ambiguity.silent_misparse", f"simplify(atol={atol}): {ex}")
+                        self.cls.add("F54.region_hit")
+                        return
+                    raise
                 err = float(np.max(np.abs(got - a.ref))) if got.size else 0.0
                 excess = max(err - bound, 0.0) / a.scale
                 self.r.subchecks += 1
@@ -978,7 +997,8 @@ class _Run:
         keys = [(tuple(tokens(t.symbol)), tuple(t.dofs)) for t in R]
         self.r.check("simplify.duplicate_terms_left", len(keys) == len(set(keys)),
                      f"two terms with the same symbol and DoFs remain: {rp(R)}"[:500])
-        self.r.check("simplify.negligible_term_left", all(abs(t.factor) > atol for t in R),
+        # (|factor| == atol up to rounding is left to the library: np.abs and abs differ in the last bit for complex numbers)
+        self.r.check("simplify.negligible_term_left", all(abs(complex(t.factor)) > atol * (1 - 1e-12) for t in R),
                      f"term with |factor| <= atol={atol} remains: {[t.factor for t in R]}"[:300])
         self.r.check("simplify.identity_left", all(("I" not in k[0]) or k[0] == ("I",) for k in keys),
                      f"identity factor not removed: {rp(R)}"[:300])
@@ -1044,7 +1064,8 @@ class _Run:
             return
         m, n = self.ctx.den_words(self.ctx.words_of(t))
         f = complex(t.factor)
-        g = self.den_check("squeeze", res, f * m, abs(f) * n, what=f"{rp(t)}.squeeze_identity()")
+        g = self.den_check("squeeze", res, f * m, abs(f) * n, what=f"{rp(t)}.squeeze_identity()",
+                           amb=lambda: ambiguous([w for w in verbatim_tokens(t.symbol) if w != "I"]))
         self.r.check("squeeze.operand_mutated", snap(t) == before, "squeeze_identity changed its operand")
         if g is None:
             return
